@@ -304,5 +304,15 @@ Example ex_sugar_cut :
   observe (parse_pieces true true 100 [[40; 37]; [97; 41]]) = observe (parse_whole true true 100 [40; 37; 97; 41]).
 Proof. vm_compute. reflexivity. Qed.
 
+(* a comment between a reader prefix and its form is skipped (parsePrefixOperand); the prefix keeps
+   waiting across the comment, also at the end of the text: "(a ~ /* c */ x)", "~ // c" *)
+Example ex_prefix_comment :
+  observe (parse_whole true true 100 [40; 97; 32; 126; 32; 47; 42; 32; 99; 32; 42; 47; 32; 120; 41])
+  = observe (parse_whole true true 100 [40; 97; 32; 126; 120; 41]) /\
+  fst (observe (parse_whole true true 100 [126; 32; 47; 47; 32; 99])) = StMore /\
+  unfinished [126; 32; 47; 47; 32; 99] = Some true /\
+  observe (parse_pieces true true 100 [[37; 32; 47; 42; 99]; [42; 47; 32]; [120]]) = observe (parse_whole true true 100 [37; 120]).
+Proof. vm_compute. repeat split; reflexivity. Qed.
+
 Example ex_pieces_ok : pieces_ok false [40; 97] [[32; 98; 41; 10]].
 Proof. vm_compute. repeat split; auto. Qed.
